@@ -10,6 +10,26 @@ theorem types_nodup (l : Lay) (ok : l.Ok) (ops : List Op) (hops : OpsOk l ops) :
   obtain ⟨h1, h2⟩ := run_sim l ok ops hops
   rw [h1]; exact ⟨typesNodupB_image _ h2, h2.nodup⟩
 
+theorem nodupB_iff {α : Type} [DecidableEq α] (l : List α) : nodupB l = true ↔ l.Nodup := by
+  induction l with
+  | nil => simp [nodupB]
+  | cons a as ih => simp [nodupB, ih]
+
+/-- THE JUDGE IS EXACT: `typesNodupB`, run on the bytes the real code leaves on disk, accepts a file iff
+    its table parses and no two live entries carry the same type -/
+theorem judge_exact (file : Bytes) :
+    typesNodupB file = true ↔
+      ∃ h es rest, decTable.run file = some ((h, es), rest) ∧ ((liveOf es).map (·.typ)).Nodup := by
+  unfold typesNodupB
+  cases hd : decTable.run file with
+  | none => simp
+  | some r =>
+    obtain ⟨⟨h, es⟩, rest⟩ := r
+    simp only [nodupB_iff, Option.some.injEq, Prod.mk.injEq]
+    constructor
+    · intro hw; exact ⟨h, es, rest, ⟨⟨rfl, rfl⟩, rfl⟩, hw⟩
+    · rintro ⟨h', es', rest', ⟨⟨rfl, rfl⟩, rfl⟩, hw⟩; exact hw
+
 /-- adding a type that is already present is refused (ValueError) and changes nothing — on any state -/
 theorem add_dup_refused (s : TdfSt) (b : BlkArg) (c : Str) (now : Int) (h : hasType b.typ s.entries = true) :
     addBlock s b c now = (s, .err .duplicate) := by simp [addBlock, h]
